@@ -1120,8 +1120,12 @@ where
                 costs[i] = high_cmplt;
                 done[i] = true;
             } else if let Some(hs_noncmplt) = hs_noncmplt {
-                debug_assert!(hs_noncmplt >= costs[i]);
-                costs[i] = hs_noncmplt;
+                // The interim cost of a rule is the highest cost of any of its productions so far:
+                // a production which was incomplete in an earlier sweep may since have become
+                // complete, so the complete productions count too (or the interim cost could drop).
+                let high = hs_cmplt.map_or(hs_noncmplt, |c| c.max(hs_noncmplt));
+                debug_assert!(high >= costs[i]);
+                costs[i] = high;
             }
         }
         if all_done {
@@ -1580,6 +1584,33 @@ mod test {
         assert_eq!(scores[usize::from(grm.rule_idx("B").unwrap())], 3);
         assert_eq!(scores[usize::from(grm.rule_idx("C").unwrap())], 2);
         assert_eq!(scores[usize::from(grm.rule_idx("D").unwrap())], 3);
+    }
+
+    #[test]
+    #[rustfmt::skip]
+    fn test_rule_max_costs3() {
+        // I's first production becomes complete one sweep before its second one does: its interim
+        // cost must not drop below the cost of the production that has just become complete.
+        let grm = YaccGrammar::new(
+            YaccKind::Original(YaccOriginalActionKind::GenericParseTree),
+            "
+            %start S
+            %%
+            S: B I C D E F;
+            B: D 'b' 'b' 'b';
+            I: B | C 'x';
+            C: E;
+            D: 'd';
+            E: F;
+            F: 'f';
+          "
+        ).unwrap();
+
+        let scores = rule_max_costs(&grm, &[1, 1, 1, 1, 1]);
+        assert_eq!(scores[usize::from(grm.rule_idx("B").unwrap())], 4);
+        assert_eq!(scores[usize::from(grm.rule_idx("I").unwrap())], 4);
+        assert_eq!(scores[usize::from(grm.rule_idx("C").unwrap())], 1);
+        assert_eq!(scores[usize::from(grm.rule_idx("S").unwrap())], 12);
     }
 
     #[test]
